@@ -234,6 +234,20 @@ class Prover:
       over = time.time() > deadline
       last = nosplit or depth >= 24 or ncases[0] >= self.max_cases or over
       r, m, wk = both(neg_f, (min(timeout_s, 5.0) if over else timeout_s) if last else min(self.first_s, timeout_s))
+      if r == 'sat' and wk and not last:
+        # a model found only without the sqrt/pow axioms: keep trying (longer timeout / case split)
+        # before settling for it as a candidate
+        r2, m2 = self._check(s, [neg_f], timeout_s)
+        if r2 == 'unsat':
+          return 'unsat'
+        if r2 == 'sat':
+          model[0] = m2
+          return 'sat'
+        if not ite_atoms([neg_f]):
+          model[0] = m
+          weak[0] = True
+          return 'sat'
+        r = 'unknown'
       if r == 'sat':
         model[0] = m
         weak[0] = wk
